@@ -46,6 +46,10 @@ def run(ctx):
                       "directly or through a local alias (shared with R13.f)", floor=1)
     ctx.rule("R12.m", "setter model: Parameter.__set__ interpreted abstractly on every combination (576) of route x constant/readonly x validation outcome x identity x reference mode x watchers x batching agrees with the specification of this property (see checks/setter_model.py)", floor=1)
     ctx.rule("R12.k", "constructor model: Parameters._setup_params (with _instantiate_param) interpreted abstractly on 288 combinations of keywords x reference modes (plain value / reference with a value / reference without a value yet / asynchronous reference) x an unknown keyword: own copy of every instantiate=True default and pinned constants before any keyword is applied (and still there when a keyword assigns nothing), exactly the specified assignments, every reference and only references recorded", floor=1)
+    ctx.rule("R12.s", "per-object state is per object: no class body in param / numbergen binds a mutable container to an attribute that a method mutates in place through self (one list "
+                      "shared by all instances: what one object saves, another restores into its own parameter values) -- shared with R19.s", floor=1)
+    from checks.shared import no_shared_mutable_class_state
+    no_shared_mutable_class_state(ctx, "R12.s")
     ctx.not_decided += ["order-dependent histories (whether the per-instance copy existed before a class-level change) -- the rules make them irrelevant but the behavioural statement is not executed"]
 
     # ------------------------------------------------------------ R12.a
